@@ -20,3 +20,42 @@ Definition u_get_n_best (a : sx) : sx :=
       end
   | _ => bad_input
   end.
+
+(* ------------------------------------------------------------------ C01 *)
+From VL Require Import Prelude.PyDict Model.Divisor Model.HighestAverages.
+
+(* divisor spec: (id) or (id first_coef) *)
+Definition as_divisor (s : sx) : option (Z -> Q) :=
+  match s with
+  | L [A i] => Some (divisor_by_id i)
+  | L [A i; c] => match as_Q c with Some c => Some (modified_first_coef (divisor_by_id i) c) | None => None end
+  | _ => None
+  end.
+
+Definition of_tie (t : option (list C * Z)) : sx :=
+  match t with
+  | None => L []
+  | Some (m, k) => L [L (map of_pos m); A k]
+  end.
+
+(* args: (divisor votes n prev caps) *)
+Definition u_highest_averages (a : sx) : sx :=
+  match a with
+  | L [dv; v; A n; p; c] =>
+      match as_divisor dv, as_dict as_pos as_Q v, as_dict as_pos as_Z p, as_dict as_pos as_Z c with
+      | Some d, Some votes, Some prev, Some caps =>
+          match HighestAverages.evaluate d votes n prev caps with
+          | HA_ok gains tie => ok (L [of_dict of_pos A gains; of_tie tie])
+          | HA_value_error => err E_VALUE
+          end
+      | _, _, _, _ => bad_input
+      end
+  | _ => bad_input
+  end.
+
+(* divisor value probe: (divisor k) -> Q ; used by the dense-grid fallback tie *)
+Definition u_divisor (a : sx) : sx :=
+  match a with
+  | L [dv; A k] => match as_divisor dv with Some d => ok (of_Q (d k)) | None => bad_input end
+  | _ => bad_input
+  end.
